@@ -195,6 +195,11 @@ def run_sequence(ctx, path: Path, ops, h_params, check_oracle=True):
                 if op[2] in ref:
                     viol = ("C02:duplicate-put-succeeds", f"second put of key {hx(op[2])[:20]} succeeded")
                 ref[op[2]] = op[3]
+            if out.startswith("err:other:"):
+                viol = ("C02:unexpected-exception", f"`{op_short(op)}` raised {out[10:]}")
+            elif out.startswith("err:") and out != "err:no-handle" and k in ("new", "reopen") and path.exists() and len(path.read_bytes()) >= 32 \
+                    and (op[2] in ("r", "a") or (k == "reopen" and op[2] is None and op[1] in real.h and real.h[op[1]].mode in ("r", "a"))):
+                viol = ("C02:open-fails-on-valid-file", f"`{op_short(op)}` failed with {out} although the file exists and is well formed")
             if out.startswith("err:") and k in ("put", "get", "keys", "new", "reopen"):
                 after_file = path.read_bytes() if path.exists() else None
                 after_keys = {i: sorted(f.keys()) for i, f in real.h.items() if i in before_keys}
